@@ -56,6 +56,7 @@ class LoopSpec:
     step: Callable | None = None                      # fn(head_view, end_view) -> clauses proved for one arbitrary iteration
     ghost_vars: dict = field(default_factory=dict)    # ghost LOOP variables: name -> T (initial value from `ghost`, havocked at the loop head)
     ghost_step: Callable | None = None                # fn(head_view, end_view) -> dict name -> new value of the ghost variables after one iteration
+    at_exit: Callable | None = None                   # fn(view) -> clauses that must hold wherever control leaves the loop (guard false / exhausted / break)
 
 
 @dataclass
